@@ -113,6 +113,24 @@ theorem metAdd_met : (metAdd cfg s f).met = if cfg.metricsOn then f s.met else s
   unfold metAdd; split <;> simp_all
 end met
 
+/-! ### classification of client pcs used by the stop/done handshake -/
+
+/-- client is between `stop` taken and `done` received -/
+def CPc.waitingDone : CPc → Bool
+  | .clrDone _ => true | .clsDone => true | _ => false
+/-- client runs the part of Clear/Close during which the applier is stopped -/
+def CPc.busy : CPc → Bool
+  | .clrDrain _ => true | .clrPolicy _ => true | .clrShard .. => true | .clrEm _ => true
+  | .clrMetrics _ => true | .clrRestart _ => true | .clsFinish => true | _ => false
+def CPc.active (pc : CPc) : Bool := pc.waitingDone || pc.busy
+
+@[simp] theorem unblockedPc_waitingDone (pc : CPc) : (unblockedPc pc).waitingDone = pc.waitingDone := by
+  cases pc <;> rfl
+@[simp] theorem unblockedPc_busy (pc : CPc) : (unblockedPc pc).busy = pc.busy := by
+  cases pc <;> rfl
+@[simp] theorem unblockedPc_active (pc : CPc) : (unblockedPc pc).active = pc.active := by
+  cases pc <;> rfl
+
 /-! ### reachability -/
 
 theorem run_append (cfg : Cfg) (s : State) (as bs : List Action) :
